@@ -1,7 +1,7 @@
 (* CapLive.v — acyclicity of the resolution graph, deadlock freedom (no_stuck) and termination
    for the interleaving model (variant fixed = true). *)
 From Coq Require Import ZArith List Bool Arith Lia.
-From CV Require Import Cap.Cap Cap.CapInv Cap.CapLemmas Cap.CapStep Cap.CapWf Cap.CapLinks Cap.CapProofs.
+From CV Require Import Cap.Cap Cap.CapInv Cap.CapLemmas Cap.CapStep Cap.CapCases Cap.CapWf Cap.CapLinks Cap.CapProofs.
 Import ListNotations.
 Open Scope nat_scope.
 
@@ -247,3 +247,183 @@ Proof.
   destruct (reachable_acyc progs g R Hm) as (rank & Rk).
   eapply (no_stuck_cfg g (reachable_inv progs g R Hm) (reachable_wf true progs g R) rank Rk); eauto.
 Qed.
+
+(* ---------------------------------------------------------------- calls through dead clients *)
+Open Scope Z_scope.
+
+(* in every reachable contract-respecting configuration a released client whose mutex is free
+   (its Release is not in the middle of its walk) has no hook *)
+Definition released_no_hook_stmt : Prop :=
+  forall progs g c cl, reachable true (init progs) g -> misuse g = false ->
+  get_client g c = Some cl -> c_released cl = true -> c_mu cl = None -> c_h cl = None.
+
+Theorem released_no_hook : released_no_hook_stmt.
+Proof. intros progs g c cl R Hm Hc Hr Hmu. apply (inv_rel g (invC g (reachable_inv progs g R Hm)) c cl Hc Hr Hmu). Qed.
+
+(* what "the call ends with an error and never reaches a capability" means for one step *)
+Definition ends_with_error (g g' : config) (t : nat) (th : thread) : Prop :=
+  events g' = events g /\ hooks g' = hooks g /\
+  exists th', nth_error (threads g') t = Some th' /\ t_pc th' = Idle /\ t_res th' = RErr :: t_res th.
+
+(* the three ways a call can go through a dead client, over all histories:
+   (nil)      SendCall/RecvCall on a nil *Client (empty variable): ends at once with the error;
+   (released) on a released client, in any reachable contract-respecting configuration, as soon
+              as the call gets the client's mutex: ends at once with the error;
+   (null)     on a client whose resolution chain ends in a promise resolved to nil: the walk
+              step that finds the nil ends the call with the error.
+   In all three no event is emitted and no hook is touched by that step. *)
+Definition dead_client_calls_stmt : Prop :=
+  (forall fixed g t th src recv abn rest g',
+     nth_error (threads g) t = Some th -> t_pc th = Idle -> t_prog th = OCall src recv abn :: rest ->
+     lookup src (cslots g) = None -> step fixed g t = Some g' -> ends_with_error g g' t th) /\
+  (forall progs g t th recv abn c cl g',
+     reachable true (init progs) g -> misuse g = false ->
+     nth_error (threads g) t = Some th -> t_pc th = CLock (KCall recv abn) c ->
+     get_client g c = Some cl -> c_released cl = true ->
+     step true g t = Some g' -> ends_with_error g g' t th) /\
+  (forall fixed g t th recv abn c cur hk g',
+     nth_error (threads g) t = Some th -> t_pc th = CWalk (KCall recv abn) c cur ->
+     get_hook g cur = Some hk -> forwarded cur hk = true -> h_rh hk = None ->
+     step fixed g t = Some g' -> ends_with_error g g' t th).
+
+Theorem dead_client_calls : dead_client_calls_stmt.
+Proof.
+  split; [|split].
+  - intros fixed g t th src recv abn rest g' Hth Hpc Hprog Hl Hs. unfold step in Hs.
+    rewrite Hth, Hpc, Hprog in Hs. inversion Hs; subst g'; clear Hs.
+    unfold begin_op. cbn [cslots set_threads]. rewrite Hl. unfold ends_with_error, finish. cbn.
+    repeat split. eexists. split. { rewrite upd_upd, nth_error_upd_eq, Hth. reflexivity. } cbn. auto.
+  - intros progs g t th recv abn c cl g' R Hm Hth Hpc Hc Hr Hs.
+    assert (Hmu : c_mu cl = None).
+    { unfold step in Hs. rewrite Hth, Hpc, Hc in Hs. destruct (c_mu cl); [discriminate|reflexivity]. }
+    pose proof (released_no_hook progs g c cl R Hm Hc Hr Hmu) as Hh.
+    apply (null_released_error true g t th recv abn c cl g' Hth Hpc Hc Hh Hs).
+  - intros fixed g t th recv abn c cur hk g' Hth Hpc Hx Hf Hr Hs. unfold step in Hs.
+    rewrite Hth, Hpc, Hx in Hs. destruct (h_mu hk); [discriminate|]. rewrite Hf, Hr in Hs.
+    inversion Hs; subst g'; clear Hs. unfold ends_with_error, cwalk_nil, finish. cbn.
+    repeat split. eexists. split. { rewrite nth_error_upd_eq, Hth. reflexivity. } cbn. auto.
+Qed.
+
+(* ---------------------------------------------------------------- no call after Shutdown *)
+Lemma cons_neq : forall A (x : A) l, l = x :: l -> False.
+Proof. intros A x l H. apply (f_equal (@length A)) in H. simpl in H. lia. Qed.
+
+(* a call is delivered (event Send/Recv on hook h) only to a live hook: at that step the hook
+   holds at least one reference, has never been shut down, and its done channel is open *)
+Definition call_delivered_live_stmt : Prop :=
+  forall progs g t g' e h, reachable true (init progs) g -> misuse g = false ->
+  step true g t = Some g' -> events g' = e :: events g -> (e = EvSend h \/ e = EvRecv h) ->
+  exists hk, get_hook g h = Some hk /\ 1 <= h_refs hk /\ h_shut hk = 0 /\ h_done hk = false.
+
+Theorem call_delivered_live : call_delivered_live_stmt.
+Proof.
+  intros progs g t g' e h R Hm Hs Hev He. pose proof (reachable_inv progs g R Hm) as I.
+  destruct (nth_error (threads g) t) as [th|] eqn:Hth; [|unfold step in Hs; rewrite Hth in Hs; discriminate].
+  unfold step in Hs. rewrite Hth in Hs.
+  destruct (t_pc th) eqn:Hpc.
+  3: { (* CWalk *)
+    destruct (get_hook g cur) as [hk|] eqn:Hx; [|discriminate].
+    destruct (h_mu hk) eqn:Hmu; [discriminate|].
+    destruct (forwarded cur hk) eqn:Hf.
+    - destruct (h_rh hk); inversion Hs; subst g'; clear Hs.
+      + cbn in Hev. exfalso. eapply cons_neq; eauto.
+      + unfold cwalk_nil, same_second in Hev. destruct k; try destruct c2; cbn in Hev; exfalso; eapply cons_neq; eauto.
+    - inversion Hs; subst g'; clear Hs.
+      destruct k; unfold cwalk_end, same_second, close_done in Hev;
+        try (repeat match type of Hev with context[match ?x with _ => _ end] => destruct x end;
+             cbn in Hev; exfalso; eapply cons_neq; eauto; fail).
+      cbn in Hev. inversion Hev; subst e.
+      assert (h = cur) by (destruct recv; destruct He as [E|E]; inversion E; auto). subst h.
+      destruct (cwalk_end_facts g t th _ c cur hk I Hth Hpc Hx Hmu Hf)
+        as (cl & Hc & Hch & Hcm & Hrel & Htg & R1 & Hd & Racc & Rcal & Rclo & Rs & Rc0).
+      pose proof (closers_nonneg g cur). exists hk. repeat split; auto. lia. }
+  all: revert Hev; leaves_core Hs; intros Hev; exfalso.
+  all: try solve [norm_cfg; eapply cons_neq; eauto].
+  all: try solve [norm_cfg; inversion Hev; subst; destruct He as [E|E]; discriminate].
+Qed.
+
+(* h_shut is the number of Shutdown events of the hook in the event log (both variants) *)
+Definition wshut (h : nat) (e : event) : Z :=
+  match e with EvShutdown x => if Nat.eqb x h then 1 else 0 | _ => 0 end.
+Definition shutcount (h : nat) (evs : list event) : Z := sumf (wshut h) evs.
+Definition shut_of (g : config) (h : nat) : Z :=
+  match get_hook g h with Some hk => h_shut hk | None => 0 end.
+Definition TraceInv (g : config) : Prop := forall h, shutcount h (events g) = shut_of g h.
+
+Ltac tr_tac T :=
+  let h0 := fresh "h0" in intros h0; specialize (T h0); unfold shut_of, shutcount, get_hook in *; norm_cfg;
+  cbn [sumf wshut] in *;
+  repeat rewrite nth_error_upd; repeat rewrite nth_error_app_new;
+  repeat match goal with
+  | |- context[Nat.eqb ?x ?y] => let E := fresh "E" in destruct (Nat.eqb x y) eqn:E;
+        [apply Nat.eqb_eq in E; subst|]
+  end;
+  repeat match goal with
+  | H : nth_error (hooks _) ?x = Some _ |- _ => rewrite !H in *
+  end;
+  try match goal with
+  | H : context[nth_error (hooks ?g) (length (hooks ?g))] |- _ =>
+      rewrite (nth_error_ge_none _ (hooks g) (length (hooks g)) (le_n _)) in H
+  end;
+  repeat match goal with
+  | |- context[nth_error (hooks ?g) ?x] => destruct (nth_error (hooks g) x)
+  end;
+  cbn in *; try lia.
+
+Lemma trace_step : forall fixed g t g', TraceInv g -> step fixed g t = Some g' -> TraceInv g'.
+Proof.
+  intros fixed g t g' T Hs. unfold TraceInv. unfold step in Hs.
+  leaves_core Hs.
+  all: try solve [tr_tac T].
+  intros h1. specialize (T h1). unfold shut_of, shutcount, get_hook in *. norm_cfg. cbn [sumf wshut].
+  rewrite nth_error_upd. destruct (Nat.eqb h h1) eqn:E.
+  - apply Nat.eqb_eq in E; subst h1.
+    match goal with H : nth_error (hooks g) h = Some _ |- _ => rewrite H in T |- * end.
+    cbn [option_map h_shut hk_shut]. lia.
+  - destruct (nth_error (hooks g) h1); lia.
+Qed.
+
+Theorem reachable_trace : forall fixed progs g, reachable fixed (init progs) g -> TraceInv g.
+Proof.
+  induction 1.
+  - intros h. unfold shutcount, shut_of, get_hook, init. cbn. destruct h; reflexivity.
+  - eapply trace_step; eauto.
+Qed.
+
+(* no call is delivered to a hook after its Shutdown: at the step that delivers a call to h the
+   event log contains no Shutdown of h *)
+Definition no_call_after_shutdown_stmt : Prop :=
+  forall progs g t g' e h, reachable true (init progs) g -> misuse g = false ->
+  step true g t = Some g' -> events g' = e :: events g -> (e = EvSend h \/ e = EvRecv h) ->
+  ~ In (EvShutdown h) (events g).
+
+Lemma shutcount_in : forall h evs, In (EvShutdown h) evs -> 1 <= shutcount h evs.
+Proof.
+  induction evs as [|e evs IH]; intros H; simpl in H. contradiction.
+  unfold shutcount in *. simpl. assert (0 <= sumf (wshut h) evs).
+  { apply sumf_nonneg. intros x. unfold wshut. destruct x; try lia. destruct (Nat.eqb h0 h); lia. }
+  destruct H as [->|H].
+  - simpl. rewrite Nat.eqb_refl. lia.
+  - specialize (IH H). assert (0 <= wshut h e). { unfold wshut. destruct e; try lia. destruct (Nat.eqb h0 h); lia. } lia.
+Qed.
+
+Theorem no_call_after_shutdown : no_call_after_shutdown_stmt.
+Proof.
+  intros progs g t g' e h R Hm Hs Hev He Hin.
+  destruct (call_delivered_live progs g t g' e h R Hm Hs Hev He) as (hk & A & _ & B & _).
+  pose proof (reachable_trace true progs g R h) as T. unfold shut_of in T. rewrite A, B in T.
+  pose proof (shutcount_in h (events g) Hin). lia.
+Qed.
+
+(* a contract-respecting run that cannot continue has finished all its operations *)
+Definition quiescent_all_finished_stmt : Prop :=
+  forall progs g, reachable true (init progs) g -> misuse g = false ->
+  (forall t, step true g t = None) -> forall th, In th (threads g) -> unfinished th = false.
+
+Theorem quiescent_all_finished : quiescent_all_finished_stmt.
+Proof.
+  intros progs g R Hm Hq th Hin. destruct (unfinished th) eqn:E; auto. exfalso.
+  destruct (no_stuck progs g R Hm (ex_intro _ th (conj Hin E))) as (t & g' & Hs).
+  rewrite Hq in Hs. discriminate.
+Qed.
+
